@@ -163,7 +163,7 @@ def shard_sampled(desc):
             k = rng.randint(2, 12)
             sizes = gen.random_composition(rng, n, k)
             tree = gen.random_tree(rng, 0, k, rng.choice(['random', 'random', 'left', 'right', 'balanced']))
-            for typ in rng.sample(TYPES, desc.get('types_per_hist', 3)):
+            for typ in rng.sample([t_ for t_ in TYPES if common.has_type(desc['variant'], t_)], desc.get('types_per_hist', 3)):
                 c, tc = build_history_case('%s-%d' % (desc['name'], cid), typ, xs, sizes, tree,
                                            leaf_how=rng.choice(['add', 'add', 'collect', 'extend']))
                 c.meta.update(meta)
@@ -238,9 +238,9 @@ def run(tier, seed):
     t0 = time.time()
     total = Result()
     if tier == 'quick':
-        nmax, kmax, nseq, variants, mult = 4, 4, 2400, [('release', 1.0), ('dev', 0.3), ('plain', 0.15)], 1
+        nmax, kmax, nseq, variants, mult = 4, 4, 2400, [('release', 1.0), ('dev', 0.3), ('plain', 0.15), ('bare', 0.15)], 1
     else:
-        nmax, kmax, nseq, variants, mult = 5, 5, 40000, [('release', 1.0), ('dev', 0.2), ('nightly', 0.1), ('plain', 0.1)], 8
+        nmax, kmax, nseq, variants, mult = 5, 5, 40000, [('release', 1.0), ('dev', 0.2), ('nightly', 0.1), ('plain', 0.1), ('bare', 0.1)], 8
     try:
         for variant, frac in variants:
             binary = build(variant)
@@ -250,7 +250,8 @@ def run(tier, seed):
                 for n in range(1, nmax + 1):
                     for k in range(1, kmax + 1):
                         for typ in TYPES:
-                            work.append((sname, full, n, k, typ))
+                            if common.has_type(variant, typ):
+                                work.append((sname, full, n, k, typ))
             if variant != 'release':
                 work = [w for w in work if w[3] <= kmax - 1]
             # balance: big (n,k) items first, round-robin
@@ -271,6 +272,8 @@ def run(tier, seed):
                 [(1100, 1), (2100, 2), (4500, 1), (9000, 2), (13000, 3), (70000, 1), (140000, 2), (300000, 1)]
             for nbig, nsmall in ratios:
                 for typ in (TYPES if nbig <= 9000 or variant == 'release' else ['Mean', 'Kurtosis']):
+                    if not common.has_type(variant, typ):
+                        continue
                     if nbig >= 70000 and typ in ('M8', 'M10', 'M5', 'M7', 'M9') and tier == 'quick':
                         continue
                     if nbig >= 140000 and tier == 'quick' and typ not in ('Mean', 'Variance', 'Kurtosis'):
@@ -284,7 +287,9 @@ def run(tier, seed):
             bc = []
             rng = random.Random(seed)
             for typ in TYPES:
-                for ka, kb in [(16, 16), (17, 3), (31, 31), (32, 32), (33, 0), (33, 33), (40, 20), (53, 0), (54, 1), (60, 59)]:
+                if not common.has_type(variant, typ):
+                    continue
+                for ka, kb in [(16, 16), (17, 3), (31, 31), (32, 32), (33, 0), (33, 33), (40, 20), (53, 0), (54, 1), (60, 59), (62, 62)]:
                     bc.append((typ, ka, kb))
             descs = [{'name': 'b%s%d' % (variant[0], s), 'variant': variant, 'binary': binary, 'work': bc[s::nsh], 'prop': PROP,
                       'only': ONLY, 'seed': seed * 1000003 + s * 17 + sum(map(ord, variant))} for s in range(nsh)]
